@@ -75,10 +75,10 @@ prediction is made (`*`); the specification is `q1`'s isolated result over `f = 
 def run (s : Sexp) : String :=
   match s with
   | .list [.atom "sharedsub"] => "model=*\tspec=[(o0)]\ttrig=F-C03-3"
-  -- `(rulereeval)`: the fixed witness of F-C03-2 — a rule query (base rule + one alternative) evaluated twice; the
-  -- selector nodes keep their `concluded_before` sets across evaluations, which no model here covers (`*`); the
-  -- specification is "the second evaluation yields what the first one yields"
-  | .list [.atom "rulereeval"] => "model=*\tspec=same\ttrig=F-C03-2"
+  -- `(rulereeval)`: a rule query (base rule + one alternative) evaluated twice; since fix 10ab5ee every
+  -- evaluation resets the selectors' `concluded_before` sets first, so the second evaluation yields what the first
+  -- one yields (F-C03-2, fixed; kept as a corpus case)
+  | .list [.atom "rulereeval"] => "model=same\tspec=same\ttrig="
   | .list (.atom "sched" :: items) => (runSched items).getD "error=bad-case"
   | .list (.atom "multi" :: items) => (runMulti items).getD "error=bad-case"
   | _ => "error=bad-case"
